@@ -76,7 +76,7 @@ def history(ctx, spec):
                     let_const=2, let_rename=2, let_compose=2, cube=1, var=2,
                     add_expr=2, to_expr=1, dup=5, traverse=6, fop=8,
                     drop=10, drop_many=2, gc=4, sift=2, reorder_to=2,
-                    copy_roundtrip=2, dump_load=1, consts=1, json=1,
+                    copy_roundtrip=2, dump_load=1, consts=1, json=1, tight=1,
                     rearm=2 if spec['dynamic'] else 0,
                     **{'not': 1})
         w.s_consts = lambda: _consts(w)
